@@ -18,6 +18,10 @@ pub struct Case {
     pub opts2: Opts,
     pub tree: Tree,
     pub edits: Vec<Edit>,
+    /// The second backup excludes the i-th entry of the first version (and what is below it):
+    /// for the new version those entries are deleted.
+    #[serde(default)]
+    pub exclude2: Option<u16>,
 }
 
 fn cfg() -> TreeCfg {
@@ -34,8 +38,9 @@ fn strategy(_tier: Tier) -> BoxedStrategy<Case> {
         tree::opts_tree_strategy(cfg()),
         tree::opts_strategy(),
         prop::collection::vec(edit_strategy(cfg()), 0..8),
+        prop::option::weighted(0.3, any::<u16>()),
     )
-        .prop_map(|((opts, tree), opts2, edits)| Case { opts, opts2, tree, edits })
+        .prop_map(|((opts, tree), opts2, edits, exclude2)| Case { opts, opts2, tree, edits, exclude2 })
         .boxed()
 }
 
@@ -135,11 +140,32 @@ fn run(case: &Case, cx: &mut Cx) -> CaseResult {
     }
 
     // The next backup's change callback.
-    let b = ops::backup(&arch, &None, &src, case.opts2, &[]);
+    let excluded_root: Option<String> = case.exclude2.and_then(|i| {
+        let cands: Vec<&String> = t0
+            .0
+            .keys()
+            .filter(|p| p.as_str() != "/" && !p.chars().any(|c| matches!(c, '*' | '?' | '[' | ']' | '{' | '}' | '\\' | '!')))
+            .collect();
+        if cands.is_empty() { None } else { Some(cands[(i as usize * cands.len()) >> 16].clone()) }
+    });
+    let excludes: Vec<String> = excluded_root.iter().cloned().collect();
+    let is_excluded = |p: &str| excluded_root.as_deref().map_or(false, |x| tree::under(x, p));
+    let b = ops::backup(&arch, &None, &src, case.opts2, &excludes);
     ensure!(!ops::backup_reported_error(&b), "C18/backup-error", "second backup: {}", b.describe());
     let changes = b.result.unwrap().changes;
+    for (p, n0) in &t0.0 {
+        // stored before, excluded now: gone from the new version
+        if n0.is_file() && is_excluded(p) && t1.0.contains_key(p) {
+            let recs: Vec<&ChangeRec> = changes.iter().filter(|c| c.apath == *p).collect();
+            ensure!(
+                recs.len() == 1 && recs[0].sigil == '-',
+                "C18/backup-callback/newly-excluded-file-not-reported-deleted",
+                "file {p} is in the previous version and excluded from this backup ({excludes:?}): backup reported {recs:?}, expected exactly one '-'"
+            );
+        }
+    }
     for (p, n1) in &t1.0 {
-        if !n1.is_file() {
+        if !n1.is_file() || is_excluded(p) {
             continue;
         }
         let want = match t0.0.get(p) {
@@ -174,6 +200,7 @@ fn run(case: &Case, cx: &mut Cx) -> CaseResult {
     cx.label_if(has('*'), "changed");
     cx.label_if(unchanged_file, "unchanged-file");
     cx.label_if(case.edits.is_empty(), "no-edits");
+    cx.label_if(excluded_root.is_some(), "second-backup-excludes-stored-entries");
     cx.nontrivial = has('+') && has('-') && has('*') && unchanged_file;
     cx.add_evals(4);
     Ok(())
@@ -210,7 +237,7 @@ fn enumerate(_tier: Tier, idx: u32, of: u32, cx: &mut Cx) -> CaseResult {
     std::fs::create_dir_all(&sub).unwrap();
     let mut cx2 = crate::engine::sub_cx(cx, sub.clone());
     crate::engine::heartbeat();
-    run(&Case { opts, opts2: ops::Opts { hunk: 500, ..opts }, tree, edits }, &mut cx2).map_err(|mut f| {
+    run(&Case { opts, opts2: ops::Opts { hunk: 500, ..opts }, tree, edits, exclude2: None }, &mut cx2).map_err(|mut f| {
         f.signature = format!("{}/probe-many-hunks", f.signature);
         f
     })?;
@@ -224,7 +251,7 @@ pub fn prop() -> Prop<Case> {
     Prop {
         id: "C18",
         level: "exploration",
-        rule: "case = (options, tree T0, 0-7 edits over add/modify(content+mtime)/touch(mtime only)/remove/rename/chmod/chown/kind swap/retarget, options2); oracle = model diff from the statement (added/deleted by path set; changed iff kind, owner or mode differ, or for files size or mtime, or for symlinks the target; directory and symlink mtimes are not changes): diff(stored T0, unmodified source) is empty; diff(stored T0, T1) equals the model diff entry-for-entry in path order with and without include_unchanged; the next backup's change callback reports exactly one added/changed/unchanged for every file of T1 and one deleted for every file of T0 that is gone. Non-trivial = the edit set yields at least one added, one deleted, one changed entry and one unchanged file; distinct by case hash; plus one fixed scale probe (eight edits against a version of 10 015 index hunks)",
+        rule: "case = (options, tree T0, 0-7 edits over add/modify(content+mtime)/touch(mtime only)/remove/rename/chmod/chown/kind swap/retarget, options2; in 30% of the cases the second backup excludes one entry of the first version and what lies below it, and the files stored there must be reported deleted); oracle = model diff from the statement (added/deleted by path set; changed iff kind, owner or mode differ, or for files size or mtime, or for symlinks the target; directory and symlink mtimes are not changes): diff(stored T0, unmodified source) is empty; diff(stored T0, T1) equals the model diff entry-for-entry in path order with and without include_unchanged; the next backup's change callback reports exactly one added/changed/unchanged for every file of T1 and one deleted for every file of T0 that is gone. Non-trivial = the edit set yields at least one added, one deleted, one changed entry and one unchanged file; distinct by case hash; plus one fixed scale probe (eight edits against a version of 10 015 index hunks)",
         assumptions: &[
             "same-size same-mtime content edits are not generated (outside the documented heuristic)",
             "file<->dir/symlink swaps are exempt on the callback side (the callback is silent for non-file kinds)",
